@@ -33,7 +33,7 @@ package fs
 //@ spec func max64(a int64, b int64) int64 = ite(a < b, b, a)
 
 // Invariant of the abstract state for an open handle.
-//@ spec func fileOK(f File) bool = f != nil && fidOf[f] != 0 && 0 <= fDur[fidOf[f]] && fDur[fidOf[f]] <= fLen[fidOf[f]] && fLen[fidOf[f]] <= 0x1000000000000
+//@ spec func fileOK(f File) bool = f != nil && hOpen[f] && fidOf[f] != 0 && 0 <= fDur[fidOf[f]] && fDur[fidOf[f]] <= fLen[fidOf[f]] && fLen[fidOf[f]] <= 0x1000000000000
 
 //@ func (f File) WriteAt(p []byte, off int64) (n int, err error)
 //@   requires off: off >= 0 && off <= 0x1000000000000
@@ -44,7 +44,6 @@ package fs
 //@   ensures data: err == nil ==> forall q int :: fData[fid(f)][q] == ite(off <= q && q < off+len(p), contents(p)[off(p) + (q - int(off))], ite(q < old(fLen[fid(f)]), old(fData[fid(f)])[q], 0))
 //@   ensures dur: err == nil ==> fDur[fid(f)] == min64(old(fDur[fid(f)]), off)
 //@   ensures err: err != nil ==> isIOErr(err)
-//@   ensures closed: !hOpen[f] ==> err != nil
 //@   ensures ok: fileOK(f)
 //@   modifies fData[fidOf[f]], fLen[fidOf[f]], fDur[fidOf[f]]
 
@@ -56,7 +55,6 @@ package fs
 //@   ensures data: err == nil ==> forall q int :: fData[fid(f)][q] == ite(q < old(fLen[fid(f)]) && q < size, old(fData[fid(f)])[q], 0)
 //@   ensures dur: err == nil ==> fDur[fid(f)] == min64(old(fDur[fid(f)]), size)
 //@   ensures err: err != nil ==> isIOErr(err)
-//@   ensures closed: !hOpen[f] ==> err != nil
 //@   ensures ok: fileOK(f)
 //@   modifies fData[fidOf[f]], fLen[fidOf[f]], fDur[fidOf[f]]
 
@@ -64,7 +62,6 @@ package fs
 //@   requires ok: fileOK(f)
 //@   ensures dur: err == nil ==> fDur[fid(f)] == fLen[fid(f)]
 //@   ensures err: err != nil ==> isIOErr(err)
-//@   ensures closed: !hOpen[f] ==> err != nil
 //@   ensures ok: fileOK(f)
 //@   modifies fDur[fidOf[f]]
 
@@ -72,10 +69,10 @@ package fs
 //@   requires range: 0 <= start && start <= end
 //@   requires ok: fileOK(f)
 //@   ensures eof: end > fLen[fid(f)] ==> err != nil
+//@   ensures eofonly: err == io.EOF ==> end > fLen[fid(f)]
 //@   ensures len: err == nil ==> len(s) == end - start && end <= fLen[fid(f)]
 //@   ensures data: err == nil ==> sameBytes(contents(s), off(s), fData[fid(f)], int(start), len(s))
 //@   ensures err: err != nil ==> (isIOErr(err) || err == io.EOF) && len(s) == 0
-//@   ensures closed: !hOpen[f] ==> err != nil
 
 //@ func (f File) Seek(offset int64, whence int) (pos int64, err error)
 //@   requires ok: fileOK(f)
@@ -83,7 +80,6 @@ package fs
 //@   ensures cur: err == nil && whence == 1 ==> pos == old(hPos[f]) + offset && hPos[f] == pos
 //@   ensures end: err == nil && whence == 2 ==> pos == fLen[fid(f)] + offset && hPos[f] == pos
 //@   ensures err: err != nil ==> isIOErr(err)
-//@   ensures closed: !hOpen[f] ==> err != nil
 //@   modifies hPos[f]
 
 //@ func (f File) Read(p []byte) (n int, err error)
@@ -95,14 +91,12 @@ package fs
 //@   ensures eof: len(p) > 0 && old(hPos[f]) >= fLen[fid(f)] && !isIOErr(err) ==> n == 0 && err == io.EOF
 //@   ensures progress: len(p) > 0 && old(hPos[f]) < fLen[fid(f)] && err == nil ==> n > 0
 //@   ensures err: err != nil ==> isIOErr(err) || err == io.EOF
-//@   ensures closed: !hOpen[f] ==> err != nil
 //@   modifies hPos[f], p[*]
 
 //@ func (f File) Stat() (info os.FileInfo, err error)
 //@   requires ok: fileOK(f)
 //@   ensures size: err == nil ==> info != nil && infoSize[info] == fLen[fid(f)] && infoName[info] == fidName[fid(f)]
 //@   ensures err: err != nil ==> isIOErr(err)
-//@   ensures closed: !hOpen[f] ==> err != nil
 
 //@ func (f File) Close() (err error)
 //@   requires ok: f != nil
@@ -130,8 +124,10 @@ package fs
 //@   requires fs: fsys != nil
 //@   ensures gone: err == nil ==> dirFid[fsys][name] == 0 && old(dirFid[fsys][name]) != 0
 //@   ensures others: forall n string :: n != name ==> dirFid[fsys][n] == old(dirFid[fsys][n])
-//@   ensures absent: old(dirFid[fsys][name]) == 0 ==> err != nil
+//@   ensures absent: old(dirFid[fsys][name]) == 0 ==> err != nil && isNotExist(err)
+//@   ensures notexist: isNotExist(err) ==> old(dirFid[fsys][name]) == 0
 //@   ensures failed: err != nil ==> dirFid[fsys][name] == old(dirFid[fsys][name])
+//@   ensures err: err != nil ==> isIOErr(err) || isNotExist(err)
 //@   modifies dirFid[fsys]
 
 //@ func (fsys FileSystem) Rename(oldpath string, newpath string) (err error)
